@@ -1,7 +1,8 @@
 """C12 runner: compiles a SEQUENCE of projects in ONE process (this one), through the real entry points.
 
 Executed with /venv/bin/python, PYTHONPATH=<repo>/src and the PYTHONHASHSEED chosen by harness/c12.py.
-stdin : {"seq": [item, …], "statediff": bool}
+stdin : {"seq": [item, …], "statediff": bool, "audit": bool (strengthening round 2: functools caches of the package called through a
+         recording proxy; after every compile the entries stored by earlier compiles are recomputed un-cached and compared)}
    item = {"entry": "TEST"|"PYJMC"|"CLI", "id": str, "src": str, "header": str|None, "cert": str|None,
            "envs": [str], "pack_format": str, "namespace": str, "existing": bool,
            "files": {relpath: text}   further project files next to main.jmc (imported .jmc files, included .hjmc files, #copy folders),
@@ -93,7 +94,7 @@ def run_item(item, root: Path, counter, argstore=None):
             store = argstore.setdefault(item["id"], {}) if argstore is not None else {}
             if item.get("cert") is not None:
                 kw["jmc_txt"] = store.setdefault("jmc_txt", cert_dict(item["cert"]))
-            pj = PyJMC(item.get("namespace", "TEST"), "d", item.get("pack_format", "48"), str(proj / "main.jmc"),
+            pj = PyJMC(item.get("namespace", "TEST"), item.get("desc", "d"), item.get("pack_format", "48"), str(proj / "main.jmc"),
                        envs=store.setdefault("envs", list(item.get("envs") or [])), **kw)
             return {"ok": True, "files": {Path(k).as_posix(): v for k, v in pj.files.items()}}
         if entry == "CLI":
@@ -109,7 +110,7 @@ def run_item(item, root: Path, counter, argstore=None):
                     f = out / rel
                     f.parent.mkdir(parents=True, exist_ok=True)
                     f.write_text(text, encoding="utf-8")
-            cfg = Configuration(GlobalData(), namespace=ns, description="d", pack_format=item.get("pack_format", "48"),
+            cfg = Configuration(GlobalData(), namespace=ns, description=item.get("desc", "d"), pack_format=item.get("pack_format", "48"),
                                 target=proj / "main.jmc", output=out)
             Header().envs = list(item.get("envs") or [])
             compile_jmc(cfg, debug=True)        # as terminal_commands.compile_ does (evaluates repr(datapack) for the log)
@@ -203,6 +204,28 @@ def global_state():
                     out[f"{mname}.{name}.{k}"] = v
             else:
                 out[f"{mname}.{name}"] = fp
+    # strengthening round 2: state that lives in FUNCTION objects - mutable default arguments, containers captured by a closure
+    # (hand-written memo decorators), functools caches (only their size: what they hold is examined by the cache audit)
+    for path, fn in iter_functions():
+        for i, dv in enumerate(getattr(fn, "__defaults__", None) or ()):
+            if isinstance(dv, (list, dict, set)):
+                out[f"{path}.<default {i}>"] = fingerprint(dv, 4, frozenset())
+        for k, dv in (getattr(fn, "__kwdefaults__", None) or {}).items():
+            if isinstance(dv, (list, dict, set)):
+                out[f"{path}.<default {k}>"] = fingerprint(dv, 4, frozenset())
+        code = getattr(fn, "__code__", None)
+        for nm, cell in zip(getattr(code, "co_freevars", ()), getattr(fn, "__closure__", None) or ()):
+            try:
+                cv = cell.cell_contents
+            except ValueError:
+                continue
+            if isinstance(cv, (list, dict, set)):
+                out[f"{path}.<closure {nm}>"] = fingerprint(cv, 4, frozenset())
+    for path, w in discover_caches().items():
+        try:
+            out[f"{path}.<functools-cache>"] = "size %d" % w.cache_info().currsize
+        except Exception:  # noqa
+            pass
     # singletons: one entry per field
     try:
         from jmc.compile.utils import SingleTonMeta
@@ -214,6 +237,216 @@ def global_state():
     except Exception:  # noqa
         pass
     return out
+
+
+# ----------------------------------------------------------------------------- functions, functools caches (strengthening round 2)
+
+def _unwrap_attr(av):
+    if isinstance(av, (staticmethod, classmethod)):
+        return av.__func__
+    if isinstance(av, property):
+        return av.fget
+    return av
+
+
+def iter_slots():
+    """(path, holder, name, raw attribute) for every module-level name and class attribute of the loaded jmc modules"""
+    import types
+    for mname in sorted(m for m in sys.modules if m == "jmc" or m.startswith("jmc.")):
+        mod = sys.modules[mname]
+        for name, obj in sorted(vars(mod).items()):
+            if name.startswith("__") and name.endswith("__"):
+                continue
+            if isinstance(obj, types.ModuleType):
+                continue
+            if isinstance(obj, type):
+                if obj.__module__ != mname:
+                    continue
+                for an, av in sorted(vars(obj).items()):
+                    if not (an.startswith("__") and an.endswith("__")):
+                        yield f"{mname}.{name}.{an}", obj, an, av
+                continue
+            yield f"{mname}.{name}", mod, name, obj
+
+
+def is_cache(o):
+    return hasattr(o, "cache_info") and hasattr(o, "cache_clear") and hasattr(o, "__wrapped__") and not getattr(o, "_c12_proxy", False)
+
+
+def iter_functions():
+    """(path, plain function) incl. the functions behind staticmethod / classmethod / property / decorators (__wrapped__ chain)"""
+    import types
+    seen = set()
+    for path, holder, name, raw in iter_slots():
+        o, depth = _unwrap_attr(raw), 0
+        while o is not None and depth < 5:
+            if isinstance(o, types.FunctionType) and not getattr(o, "_c12_proxy", False):
+                if (getattr(o, "__module__", "") or "").startswith("jmc") and id(o) not in seen:
+                    seen.add(id(o))
+                    yield (path if depth == 0 else f"{path}<wrapped {depth}>"), o
+                # a decorator's inner function keeps the decorated one (and any memo) in its closure: visible as closure cells
+            o = getattr(o, "__wrapped__", None)
+            depth += 1
+
+
+def discover_caches():
+    """{path: functools cache wrapper} reachable from a module-level name or class attribute of the package (directly, behind
+    staticmethod / classmethod, or down a __wrapped__ chain, or in a closure cell of such a function)"""
+    out, seen = {}, set()
+    for path, holder, name, raw in iter_slots():
+        o, depth = _unwrap_attr(raw), 0
+        if getattr(o, "_c12_proxy", False):
+            o = o._c12_cache
+        while o is not None and depth < 5:
+            if is_cache(o):
+                if id(o) not in seen:
+                    seen.add(id(o))
+                    out[path] = o
+                break
+            for cell in getattr(o, "__closure__", None) or ():
+                try:
+                    cv = cell.cell_contents
+                except ValueError:
+                    continue
+                if is_cache(cv) and id(cv) not in seen:
+                    seen.add(id(cv))
+                    out[path + "<closure>"] = cv
+            o = getattr(o, "__wrapped__", None)
+            depth += 1
+    return out
+
+
+def value_like(x, depth=0):
+    import enum
+    if x is None or isinstance(x, (bool, int, float, str, bytes, enum.Enum, Path)):
+        return True
+    if isinstance(x, (tuple, frozenset)) and depth < 4:
+        return all(value_like(y, depth + 1) for y in x)
+    return False
+
+
+class CacheAudit:
+    """Every functools cache of the package that a module-level name / class attribute refers to directly is called through a recording
+    proxy.  After every compile, every entry stored by an EARLIER compile is recomputed with the un-cached function under the state the
+    compile just left behind (its header definitions, its names ...): a memo whose key determines its value gives the cached value again;
+    one keyed by less than what the value depends on (the expression text but not the number macros, the folder but not its content)
+    does not - a witness (arguments, cached value, value now, the two projects).  Hits on entries stored by an earlier compile are
+    recorded too (the pairs of projects whose results are at stake)."""
+
+    def __init__(self):
+        self.caches = {}        # path -> dict(w=wrapper, keys={key: (compile index, id)}, cross_hits=[...], intercepted=bool)
+        self.current = (-1, None)
+        self.witnesses = []
+        self.recomputed = {}
+
+    def install(self):
+        import functools
+        for path, w in discover_caches().items():
+            if path in self.caches or any(c["w"] is w for c in self.caches.values()):
+                continue
+            rec = self.caches[path] = dict(w=w, keys={}, cross_hits=[], intercepted=False, calls=0)
+            proxy = self.make_proxy(rec, w)
+            for p2, holder, name, raw in list(iter_slots()):
+                target = _unwrap_attr(raw)
+                if target is w:
+                    new = proxy
+                    if isinstance(raw, staticmethod):
+                        new = staticmethod(proxy)
+                    elif isinstance(raw, classmethod):
+                        new = classmethod(proxy)
+                    try:
+                        setattr(holder, name, new)
+                        rec["intercepted"] = True
+                    except Exception:  # noqa
+                        pass
+
+    def make_proxy(self, rec, w):
+        import functools
+        audit = self
+
+        def proxy(*a, **kw):
+            try:
+                before = w.cache_info()
+            except Exception:  # noqa
+                return w(*a, **kw)
+            r = w(*a, **kw)
+            try:
+                after = w.cache_info()
+                key = (a, tuple(sorted(kw.items())))
+                hash(key)
+                rec["calls"] += 1
+                if after.misses > before.misses:
+                    if len(rec["keys"]) < 400:
+                        rec["keys"].setdefault(key, audit.current)
+                elif after.hits > before.hits:
+                    src = rec["keys"].get(key)
+                    if src is not None and src[0] != audit.current[0] and len(rec["cross_hits"]) < 200:
+                        rec["cross_hits"].append((key, src, audit.current))
+            except Exception:  # noqa
+                pass
+            return r
+        try:
+            functools.update_wrapper(proxy, w)
+        except Exception:  # noqa
+            pass
+        proxy._c12_proxy = True
+        proxy._c12_cache = w
+        proxy.cache_info = w.cache_info
+        proxy.cache_clear = w.cache_clear
+        return proxy
+
+    def begin(self, index, pid):
+        self.current = (index, pid)
+
+    def end(self):
+        """recompute what earlier compiles stored, under the state this compile left"""
+        self.install()          # modules imported lazily by this compile
+        for path, rec in self.caches.items():
+            w = rec["w"]
+            n = 0
+            for key, src in list(rec["keys"].items()):
+                if src[0] == self.current[0] or n >= 40:
+                    continue
+                a, kw = key[0], dict(key[1])
+                if not (value_like(a) and value_like(tuple(kw.values()))):
+                    continue
+                n += 1
+                try:
+                    h0 = w.cache_info().hits
+                    cached = w(*a, **kw)
+                    if w.cache_info().hits == h0:          # evicted meanwhile: that call recomputed and stored it
+                        rec["keys"][key] = self.current
+                        continue
+                except Exception:  # noqa
+                    continue
+                try:
+                    fresh = w.__wrapped__(*a, **kw)
+                    same = type(fresh) is type(cached) and (fresh == cached or repr(fresh) == repr(cached))
+                    fr = repr(fresh)[:300]
+                except BaseException as e:  # noqa
+                    if isinstance(e, (_Timeout, KeyboardInterrupt)):
+                        raise
+                    same, fr = False, "raises %s: %s" % (type(e).__name__, str(e)[:120])
+                self.recomputed[path] = self.recomputed.get(path, 0) + 1
+                if not same and sum(1 for x in self.witnesses if x["cache"] == path) < 6:
+                    hit = any(k2 == key and cur[0] == self.current[0] for k2, s2, cur in rec["cross_hits"])
+                    self.witnesses.append(dict(cache=path, arguments=repr(a)[:300] + (repr(kw)[:100] if kw else ""), cached=repr(cached)[:300],
+                                               now=fr, stored_by=src[1], stored_at=src[0], recomputed_after=self.current[1],
+                                               recomputed_at=self.current[0], hit_in_that_compile=hit))
+
+    def report(self):
+        out = []
+        for path, rec in self.caches.items():
+            try:
+                info = rec["w"].cache_info()
+                size, hits, misses = info.currsize, info.hits, info.misses
+            except Exception:  # noqa
+                size = hits = misses = -1
+            out.append(dict(cache=path, entries=size, hits=hits, misses=misses, intercepted=rec["intercepted"], recorded_calls=rec["calls"],
+                            recorded_keys=len(rec["keys"]), recomputed=self.recomputed.get(path, 0),
+                            hits_on_entries_of_an_earlier_compile=len(rec["cross_hits"]),
+                            cross_hit_pairs=sorted({(s[1], c[1]) for _, s, c in rec["cross_hits"]})[:20]))
+        return dict(caches=out, witnesses=self.witnesses)
 
 
 # ----------------------------------------------------------------------------- self-test and reach instrumentation
@@ -421,14 +654,27 @@ def main():
         tracer = Tracer(req["trace"]) if req.get("trace") else None
         if tracer:
             tracer.start()
+        audit = CacheAudit() if req.get("audit") else None
+        if audit:
+            audit.install()
         before = global_state() if req.get("statediff") else None
         counter = {}
         argstore = {} if req.get("reuse_args") else None
         changed = set()
-        for item in req["seq"]:
+        for index, item in enumerate(req["seq"]):
             if tracer:
                 tracer.begin()
+            if audit:
+                audit.begin(index, item["id"])
             r = run_item(item, root, counter, argstore)
+            if audit:
+                signal.alarm(60)
+                try:
+                    audit.end()
+                except _Timeout:
+                    pass
+                finally:
+                    signal.alarm(0)
             if argstore is not None:        # did the compile change the objects it was given?
                 st = argstore.get(item["id"], {})
                 r["args_mutated"] = [n for n, spec in (("envs", list(item.get("envs") or [])), ("jmc_txt", cert_dict(item.get("cert") or "")))
@@ -451,7 +697,7 @@ def main():
         os.chdir(cwd)
         shutil.rmtree(root, ignore_errors=True)
     sys.stdout = real_stdout
-    json.dump({"results": results, "statediff": diff}, sys.stdout)
+    json.dump({"results": results, "statediff": diff, **({"audit": audit.report()} if audit else {})}, sys.stdout)
 
 
 if __name__ == "__main__":
